@@ -89,7 +89,10 @@ pub(crate) trait MessageType: Sized {
             let headers = self.headers_mut();
 
             for idx in raw_headers.iter() {
-                let name = HeaderName::from_bytes(&slice[idx.name.0..idx.name.1]).unwrap();
+                // httparse accepts a field name of any length; `HeaderName` refuses names longer
+                // than 65 535 bytes, so this conversion can fail on peer input
+                let name = HeaderName::from_bytes(&slice[idx.name.0..idx.name.1])
+                    .map_err(|_| ParseError::Header)?;
 
                 // SAFETY: httparse already checks header value is only visible ASCII bytes
                 // from_maybe_shared_unchecked contains debug assertions so they are omitted here
